@@ -14,6 +14,7 @@ pub fn dispatch(check: &str, lo: i64, hi: i64, seed: u64, thorough: bool, out: &
     "c01_calendar_years" => c01_calendar_years(lo, hi, out),
     "l_new" => l_new(lo, hi, out),
     "l_td" => l_td(lo, hi, out),
+    "c03_month_step" => c03_month_step(lo, hi, out),
     "c02_solar_side" => c02_solar_side(lo, hi, out),
     "c02_lunar_side" => c02_lunar_side(lo, hi, out),
     "c06_day_term" => c06_day_term(lo, hi, out),
@@ -238,7 +239,9 @@ fn c02_lunar_side(lo: i64, hi: i64, out: &mut Out) {
       for d in 1..=cnt {
         out.evaluations += 1;
         let ld = match guard(|| LunarDay::new(y, m, d)) { Some(Ok(v)) => v, _ => { out.fail(format!("laccept:{}:{}:{}", y, m, d), "refused".into()); continue; } };
-        let sd = match guard(|| ld.get_solar_day()) { Some(v) => v, None => { if y >= 1 { out.fail(format!("l2s:{}:{}:{}", y, m, d), "panic".into()); } continue; } };
+        let want_n = lm.get_first_julian_day().get_day() as i64 + d as i64 - 1;
+        if want_n < 1721424 || want_n > 5373484 { continue; } // civil date outside 0001-01-01..9999-12-31
+        let sd = match guard(|| ld.get_solar_day()) { Some(v) => v, None => { out.fail(format!("l2s:{}:{}:{}", y, m, d), "panic".into()); continue; } };
         let n = jdn_sd(&sd);
         if n != lm.get_first_julian_day().get_day() as i64 + d as i64 - 1 { out.fail(format!("l2s:{}:{}:{}", y, m, d), format!("civil {} but month starts at {}", sd, lm.get_first_julian_day().get_day())); }
         match guard(|| sd.get_lunar_day()) {
@@ -293,8 +296,14 @@ fn c06_day_term(lo: i64, hi: i64, out: &mut Out) {
     for (yy, m, d) in dates_of_year(y) {
       let n = spec::jdn(yy, m, d);
       while kk + 1 < td.len() && td[kk + 1] <= n { kk += 1; }
-      if td[kk] > n { continue; } // before the first tabulated term (only the first days of year 1)
       out.evaluations += 1;
+      if td[kk] > n {
+        // before the first term whose day is a supported civil date (0001-01-01..05): the governing term
+        // (winter solstice of December 0000) cannot be represented, the request must at least not panic
+        let sd = SolarDay::from_ymd(yy as isize, m as usize, d as usize);
+        if guard(|| sd.get_term_day().get_day_index()).is_none() { out.fail(format!("dayterm:{}-{}-{}", yy, m, d), "panic: governing term lies in year 0".into()); }
+        continue;
+      }
       let want_k = k0 + kk as i64;
       let sd = SolarDay::from_ymd(yy as isize, m as usize, d as usize);
       match guard(|| { let t = sd.get_term_day(); (t.get_solar_term().get_year(), t.get_solar_term().get_index(), t.get_day_index()) }) {
@@ -391,5 +400,53 @@ fn c07_pillar_week(lo: i64, hi: i64, out: &mut Out) {
       }
     }
     if y == lo { out.sample(format!("civil year {}: pillar by 3 routes + weekday by 2 routes", y)); }
+  }
+}
+
+
+// ---------------------------------------------------------------------------------------------
+// C03/C11: LunarMonth::next(n) against the month list: every month of years lo..=hi x step counts
+// ---------------------------------------------------------------------------------------------
+fn c03_month_step(lo: i64, hi: i64, out: &mut Out) {
+  let pad = 112i64;
+  let y0 = i64::max(0, lo - pad) as isize;
+  let y1 = i64::min(9999, hi + pad) as isize;
+  let mut list: Vec<(isize, isize)> = vec![];
+  let mut start_of: std::collections::HashMap<isize, usize> = std::collections::HashMap::new();
+  for y in y0..=y1 { start_of.insert(y, list.len()); for m in months_of(y) { list.push((y, m)); } }
+  let mut steps: Vec<isize> = (-40..=40).collect();
+  steps.extend_from_slice(&[100, -100, 1237, -1237]);
+  for y in lo..=hi {
+    let y = y as isize;
+    let base = start_of[&y];
+    let ms = months_of(y);
+    // year listing == stepping
+    out.evaluations += 1;
+    match guard(|| LunarYear::from_year(y).get_months().iter().map(|m| (m.get_year(), m.get_month_with_leap())).collect::<Vec<_>>()) {
+      Some(v) => { let want: Vec<(isize, isize)> = ms.iter().map(|&m| (y, m)).collect(); if y < 9999 && v != want { out.fail(format!("yearlist:{}", y), format!("{:?}", v)); } }
+      None => if y < 9999 { out.fail(format!("yearlist:{}", y), "panic".into()) },
+    }
+    if y < 9999 {
+      let cnt = LunarYear::from_year(y).get_month_count();
+      if cnt != ms.len() { out.fail(format!("monthcount:{}", y), format!("{}", cnt)); }
+    }
+    for (i, &m) in ms.iter().enumerate() {
+      let lm = LunarMonth::from_ym(y, m);
+      for &n in steps.iter() {
+        let t = base as isize + i as isize + n;
+        if t < 0 || t as usize >= list.len() { continue; }
+        let want = list[t as usize];
+        if (want.0 as i64) < 0 || want.0 > 9999 { continue; }
+        out.evaluations += 1;
+        match guard(|| { let r = lm.next(n); (r.get_year(), r.get_month_with_leap(), r.next(-n)) }) {
+          Some((ry, rm, back)) => {
+            if (ry, rm) != want { out.fail(format!("step:{}:{}:{}", y, m, n), format!("-> ({},{}) want {:?}", ry, rm, want)); }
+            if back.get_year() != y || back.get_month_with_leap() != m { out.fail(format!("stepback:{}:{}:{}", y, m, n), format!("next({}).next({}) -> ({},{})", n, -n, back.get_year(), back.get_month_with_leap())); }
+          }
+          None => out.fail(format!("step:{}:{}:{}", y, m, n), "panic".into()),
+        }
+      }
+    }
+    if y as i64 == lo { out.sample(format!("lunar year {}: {} months x {} step counts", y, ms.len(), steps.len())); }
   }
 }
